@@ -3,6 +3,7 @@ package main
 import (
 	"fmt"
 	"go/types"
+	"os"
 	"sort"
 	"strings"
 	"sync"
@@ -12,16 +13,16 @@ import (
 )
 
 type FnResult struct {
-	Key         string
-	Obls        []*Obligation
-	Abstracted  []string
-	Assumptions []string
-	Trusted     []string
+	Key           string
+	Obls          []*Obligation
+	Abstracted    []string
+	Assumptions   []string
+	Trusted       []string
 	UsedContracts []string
-	Spawns      []string
-	Err         string
-	Ctx         *FnCtx
-	Decided     []*OblResult // structural obligations decided without a solver
+	Spawns        []string
+	Err           string
+	Ctx           *FnCtx
+	Decided       []*OblResult // structural obligations decided without a solver
 }
 
 func (e *Engine) newCtx(fn *ssa.Function, ct *FuncContract) *FnCtx {
@@ -38,6 +39,11 @@ func (e *Engine) newCtx(fn *ssa.Function, ct *FuncContract) *FnCtx {
 		c.props = ct.Props
 		for k := range ct.Checks {
 			c.checks[k] = true
+		}
+		if len(ct.Checks) > 0 {
+			for _, k := range strings.Fields(os.Getenv("GOVC_EXTRA_CHECKS")) {
+				c.checks[k] = true
+			}
 		}
 	}
 	return c
@@ -326,16 +332,16 @@ func (e *Engine) VerifyLemma(l *LemmaDef) *FnResult {
 // ---------------------------------------------------------------------------------------
 
 type OblResult struct {
-	Name    string        `json:"name"`
-	Class   string        `json:"class"`
-	Func    string        `json:"func"`
-	Kind    string        `json:"kind"`
-	Status  string        `json:"status"` // discharged | refuted | undecided | cover-ok | cover-failed
-	Clause  string        `json:"clause,omitempty"`
-	Where   string        `json:"where,omitempty"`
-	Quote   string        `json:"property_sentence,omitempty"`
-	Solve   SolveResult   `json:"solve"`
-	obl     *Obligation
+	Name   string      `json:"name"`
+	Class  string      `json:"class"`
+	Func   string      `json:"func"`
+	Kind   string      `json:"kind"`
+	Status string      `json:"status"` // discharged | refuted | undecided | cover-ok | cover-failed
+	Clause string      `json:"clause,omitempty"`
+	Where  string      `json:"where,omitempty"`
+	Quote  string      `json:"property_sentence,omitempty"`
+	Solve  SolveResult `json:"solve"`
+	obl    *Obligation
 }
 
 func hasProp(props []string, p string) bool {
